@@ -481,8 +481,10 @@ func runScenario(cs *fw.Case, sc scenario) {
 	p := fw.Call(func() { err = sc.Call(cs.R, o) })
 	fw.SetTickBudget(0)
 	used := tickDelta(before)
-	for site, k := range used {
-		cs.C.CoverMax("max:ticks:"+site+":optimiser-scenarios", k)
+	if p == nil {
+		for site, k := range used {
+			cs.C.CoverMax("max:ticks-when-returned:"+site+":optimiser-scenarios", k)
+		}
 	}
 	cs.Cover("call:" + sc.Routine)
 	cs.Cover("set:scenario:" + sc.Routine + "|" + sc.Opts + "|" + sc.Obj)
